@@ -90,6 +90,15 @@ def run_group(acc, wd, gi, rng, seed):
                 open(patch, 'w').write(ptxtb)
             else:
                 open(patch, 'a').write(ptxtb)
+        # both inputs define a node of the same name that the patch file restructures
+        shared = ('<struct name="Shared"><member name="n" type="u32"/><member name="x" type="u8"><dimension size="3"/>'
+                  '</member><member name="t" type="u16"/></struct>\n</x>')
+        xml = xml.replace('</x>', shared)
+        xmlb = xmlb.replace('</x>', shared)
+        open(p, 'w').write(xml)
+        patch = patch or os.path.join(src, 'a.patch')
+        open(patch, 'a').write('Shared dynamic x n\nShared type t u64\n')
+        acc.feature('same-named-patched-node-in-two-inputs')
         pb = os.path.join(src, 'b.xml')
         open(pb, 'w').write(xmlb)
     else:
@@ -104,6 +113,12 @@ def run_group(acc, wd, gi, rng, seed):
             inputsA = [p]
         pb = os.path.join(src, 'b.prophy')
         open(pb, 'w').write(schB.to_prophy())
+        if gi % 4 == 1:
+            for q in (inputsA[-1], pb):
+                open(q, 'a').write('struct Shared { u32 n; u8 x[3]; u16 t; };\n')
+            patch = os.path.join(src, 'a.patch')
+            open(patch, 'w').write('Shared dynamic x n\nShared type t u64\n')
+            acc.feature('same-named-patched-node-in-two-inputs')
     runs = []
 
     def go(tag, inputs, hashseed='0', cwd=None, relative=False):
@@ -263,5 +278,7 @@ def finish(ctx, merged, specs):
     missing = [k for k in ('cli_runs', 'files_compared', 'in_process_runs', 'layout_runs') if not merged['counters'].get(k)]
     if merged['counters'].get('prerequisite_failures', 0) > merged['counters'].get('cli_runs', 0) // 4:
         missing.append('too many prerequisite failures')
+    if 'same-named-patched-node-in-two-inputs' not in merged.get('features', []) and not (specs and specs[0]['kind'] == 'replay'):
+        missing.append('same-named-patched-node-in-two-inputs')
     if missing and not merged['inconclusive']:
         merged['inconclusive'] = 'coverage floor not met: %s' % missing
